@@ -291,12 +291,12 @@ DLABELS = ["NP", "NP-SBJ", "NP-SBJ-1", "NP=2", "NP-SBJ=2-1", "S-1'", "-NONE-"]
 PWORDS = ["a", "(", "-LRB-", "x]y", "{"]
 
 
-def options(dl, dp, pw, gfs, rp):
-    """gf_split / replace_parens have the same effect in export, brackets and TIGER-XML"""
+def options(dl, dp, pw, gfs, rp, qt=True):
+    """gf_split / replace_parens / quiet have the same effect in export, brackets and TIGER-XML"""
     stubs.install()
     spec = ("N", "VROOT", "--", (("N", DLABELS[dl], "--", (("T", PWORDS[pw], DLABELS[dp], "--", "--", "--", 1),
                                                             ("T", "b", "P2", "--", "--", "--", 2))),))
-    params = {'quiet': True}
+    params = {'quiet': True} if qt else {}
     if gfs:
         params['gf_split'] = True
     if rp:
@@ -406,6 +406,6 @@ def conds(tier):
                        timeout=600 if q else 3000, functions=FUNCS[6:8]))
     cs.append(Cond("options", "harness.c01:options",
                    [P("dl", "int", 0, len(DLABELS)), P("dp", "int", 0, len(DLABELS)), P("pw", "int", 0, len(PWORDS)),
-                    P("gfs", "bool"), P("rp", "bool")], pre=(["dp == 0 or dl == 0"] if q else []),
+                    P("gfs", "bool"), P("rp", "bool"), P("qt", "bool")], pre=(["dp == 0 or dl == 0", "qt or pw == dl % 5"] if q else []),
                    shard=["gfs", "rp"], timeout=600 if q else 2400, functions=FUNCS[1:2] + FUNCS[3:]))
     return cs
